@@ -27,6 +27,9 @@ TEMPLATES = {
     "tmpl/noblank.zot": "# header only, no blank line\n## never used\n",
     "tmpl/plain.zot": "# x\n\n##\n## plain {{ raw }}\n  ##\n##x\n",
     "tmpl/ticket.zot": "# ticket\n\n## TICKET {{ id }}\n",
+    # the line that separates header and body holds blanks / a tab only
+    "tmpl/wsline.zot": "# header line\n# second\n  \n## WS {{ raw }}\n\n- body after an empty line\n",
+    "tmpl/tabline.zot": "# header\n\t\n## TAB {{ raw }}\n- no empty line at all\n",
     # tells a captured EMPTY string from a variable that is not there
     "tmpl/topic.zot": "# topic\n\n## {{ date.strftime('%Y-%m-%d') }} [{{ topic | default('general') }}] "
                       "{% if topic is defined %}given{% else %}absent{% endif %}\n",
@@ -43,11 +46,13 @@ PATTERNS = [
     (r"^prj/.*$", "tmpl/plain.zot"),
     (r"^t/(?P<id>[0-9]+)\.zo$", "tmpl/ticket.zot"),       # purely numeric captures of any length
     (r"^notes/(?P<date>[0-9]{8})_?(?P<topic>[a-z]*)\.zo$", "tmpl/topic.zot"),     # a group that may capture the empty string
+    (r"^ws/(?P<raw>[a-z]+)\.zo$", "tmpl/wsline.zot"),
+    (r"^tab/(?P<raw>[a-z]+)\.zo$", "tmpl/tabline.zot"),
 ]
 TARGETS = ["20240105", "20240105.zo", "log/20240229", "work/20240105", "home/20240105", "work/20241305", "prj/alpha",
            "prj/beta_x", "240105", "zzz", "sub/deep/none", "x_np", "prj/Alpha", "20240100", "home/20240105.zo",
            "t/123456", "t/2024111", "t/20240105", "t/12", "123456", "t/202411", "t/1234567890",
-           "notes/20240106", "notes/20240106_math", "notes/20240107_", "notes/20240106"]
+           "notes/20240106", "notes/20240106_math", "notes/20240107_", "notes/20240106", "ws/alpha", "tab/beta", "ws/gamma"]
 
 
 def gen_case(rng):
